@@ -358,11 +358,22 @@ func c08SCIONListener(r *simcore.Run, tp *simcore.Tape) map[string]any {
 	w := newSCIONWorld(r, 0, 1)
 	auth := tp.Bool(1, 2, "auth")
 	prov := ntske.NewProvider()
-	w.startServers(1, auth, 0, prov, false)
-	replies := 0
+	// in half of the runs the client side's end-host forwarder runs too (started by hand or
+	// by StartSCIONDispatcher) and gets its share of the hostile input
+	fwd := tp.Bool(1, 2, "with-forwarder")
+	w.startServers(1, auth, 0, prov, fwd)
+	replies, forwarded := 0, 0
 	w.net.OnSend = func(d *simnet.Datagram) {
 		if d.SrcConn != nil && d.SrcConn.Host() == w.srv {
 			replies++
+		}
+		if d.SrcConn != nil && d.SrcConn.Host() == w.cli && d.Dst.Port() == 40556 {
+			forwarded++
+		}
+	}
+	if fwd {
+		if _, err := w.net.Listen(hp(scCliIP, 40556), false); err != nil {
+			panic(err)
 		}
 	}
 	rtr := netip.AddrPortFrom(netip.MustParseAddr(scRouterIP(0)), scRouterPort)
@@ -461,6 +472,33 @@ func c08SCIONListener(r *simcore.Run, tp *simcore.Tape) map[string]any {
 			}
 			if r.Sleep(fmt.Sprintf("burst:%d", round), w.cli.Node, 3*time.Millisecond).Killed {
 				return
+			}
+			if fwd {
+				// hostile input for the forwarder: packets for L4 port 0, its own port, the NTP port,
+				// another port - plain, NTS-shaped, mutated; then a packet it has to relay
+				for i := 0; i < 1+tp.Intn(3, "fburst"); i++ {
+					l4 := []uint16{0, 0, scEndhost, 123, 40556, scSvcPort}[tp.Intn(6, "fl4")]
+					raw := buildSCION(scSrvIA, scCliIA, scSrvIP, scCliIP, 41000, l4, []int{2 + tp.Intn(3, "fh")}, 0, ntpReq())
+					if tp.Bool(1, 3, "fmut") {
+						raw = c08Mutate(tp, raw)
+					}
+					w.net.Inject(w.net.NewDatagram(rtr, netip.AddrPortFrom(netip.MustParseAddr(scCliIP), scEndhost), raw, "crafted for the forwarder"), time.Duration(10+i)*time.Microsecond)
+					crafted++
+				}
+				r.Probe("hostile-input-for-the-forwarder")
+				if r.Sleep(fmt.Sprintf("fburst:%d", round), w.cli.Node, 3*time.Millisecond).Killed {
+					return
+				}
+				f0 := forwarded
+				relay := buildSCION(scSrvIA, scCliIA, scSrvIP, scCliIP, 41000, 40556, []int{3}, 0, []byte("relay me"))
+				w.net.Inject(w.net.NewDatagram(rtr, netip.AddrPortFrom(netip.MustParseAddr(scCliIP), scEndhost), relay, "sentinel"), 10*time.Microsecond)
+				if !c08Await(r, w.cli.Node, fmt.Sprintf("fsentinel:%d", round), func() bool { return forwarded > f0 }) {
+					return
+				}
+				if forwarded == f0 {
+					r.Fail("C08", "forwarder/sentinel-not-relayed", "after crafted SCION packets the end-host forwarder no longer relays a well-formed packet")
+					return
+				}
 			}
 			// sentinel: a well-formed NTP request over SCION on the service port
 			n0 := replies
